@@ -93,6 +93,20 @@ def catchUp (r : Run) : Option String :=
     | some i => some s!"follower-differs-from-the-leader-at-{i}"
     | none => none
 
+/-- C05: what the leader records as stored by the follower (the index it enters into its commitment
+    table) the follower really holds, in agreement with the leader: its log has the leader's entry
+    there, or its snapshot covers the index -/
+def matchSound (r : Run) : Option String :=
+  if r.leader.dead then none else
+  let f := followerEnd r
+  if f.dead ∨ f.panic then none
+  else if r.matchedEnd = 0 then none
+  else if r.matchedEnd ≤ f.vol.snapIdx then none
+  else match getLog r.leader.dur.log r.matchedEnd, getLog f.dur.log r.matchedEnd with
+    | some le, some fe => if le.term = fe.term then none else some "follower-credited-with-an-entry-it-holds-differently"
+    | none, some _ => none      -- (compacted on the leader: nothing to compare)
+    | _, none => some "follower-credited-with-an-entry-it-does-not-hold"
+
 def check (r : Run) : Option String :=
   match badRequest r.leader r.trace 0 with
   | some k => some s!"request-{k}-not-built-from-the-leaders-log"
@@ -102,6 +116,9 @@ def check (r : Run) : Option String :=
     | none =>
       match progress r with
       | some b => some b
-      | none => catchUp r
+      | none =>
+        match matchSound r with
+        | some b => some b
+        | none => catchUp r
 
 end CU
